@@ -13,6 +13,7 @@ import OrsoVerif.Drv.C12
 import OrsoVerif.Drv.C13
 import OrsoVerif.Drv.C14
 import OrsoVerif.Drv.C15
+import OrsoVerif.Drv.C16
 import OrsoVerif.Drv.C17
 import OrsoVerif.Drv.C18
 import OrsoVerif.Drv.C19
@@ -36,6 +37,7 @@ def dispatch (prop op : String) (args : List PyVal) : Option (List PyVal) :=
   | "C13" => Drv.C13.handle op args
   | "C14" => Drv.C14.handle op args
   | "C15" => Drv.C15.handle op args
+  | "C16" => Drv.C16.handle op args
   | "C17" => Drv.C17.handle op args
   | "C18" => Drv.C18.handle op args
   | "C19" => Drv.C19.handle op args
